@@ -714,6 +714,7 @@ class file_archive(archive):
                 filename = 'memo.json' if type(protocol) is str else 'memo.pkl'
             else: filename = 'memo.py'
         elif not serialized and not filename.endswith(('.py','.pyc','.pyo','.pyd')): filename = filename+'.py'
+        filename = os.path.abspath(filename) # as dir_archive: don't follow cwd
         # set state
         self.__state__ = {
             'id': filename,
